@@ -84,4 +84,33 @@ theorem prvFwd_reverse {h : Id → Node K V} {b : List Id} (hb : PrvFwd h b) : B
     refine ⟨ih h2, ?_⟩
     rw [h1, List.getLast?_reverse, Option.or_none]
 
+
+/-- soundness of the executable check: if it accepts and `keys` covers the dictionary, the
+    structure is well-formed -/
+theorem wfCheck_sound {c : CLru K V} {keys : List K} (h : wfCheck c keys = true)
+    (hcov : ∀ k i, c.dict k = some i → k ∈ keys) : Wf c := by
+  unfold wfCheck at h
+  cases hf : walkNxt c.heap (c.size + 1) c.head with
+  | none => simp [hf] at h
+  | some f =>
+    cases hb : walkPrv c.heap (c.size + 1) c.tail with
+    | none => simp [hf, hb] at h
+    | some b =>
+      simp only [hf, hb, Bool.and_eq_true, beq_iff_eq, List.all_eq_true, decide_eq_true_eq] at h
+      obtain ⟨⟨⟨⟨⟨hrev, hlen⟩, hnd⟩, hfresh⟩, hdict⟩, hkeys⟩ := h
+      obtain ⟨hhead, hfwd⟩ := walkNxt_fwd hf
+      obtain ⟨htail, hprv⟩ := walkPrv_fwd hb
+      have hbwd : BwdOK c.heap none f := by rw [hrev]; exact prvFwd_reverse hprv
+      refine ⟨f, ⟨(seg_iff _ _ _ _).mpr ⟨hfwd, hbwd⟩, hhead, ?_, hnd⟩, ⟨hdict, ?_, hlen.symm⟩, hfresh⟩
+      · rw [htail, hrev, List.getLast?_reverse]
+      · intro k i hk
+        have := hkeys k (hcov k i hk)
+        simp only [hk, Bool.and_eq_true, List.contains_iff_mem, decide_eq_true_eq] at this
+        exact this
+
+/-- on a key universe that covers the dictionary the check decides well-formedness -/
+theorem wfCheck_iff {c : CLru K V} {keys : List K} (hcov : ∀ k i, c.dict k = some i → k ∈ keys) :
+    wfCheck c keys = true ↔ Wf c :=
+  ⟨fun h => wfCheck_sound h hcov, fun ⟨_, hr⟩ => hr.wfCheck keys⟩
+
 end Genshi.Lru
